@@ -29,7 +29,7 @@ open UtilModel UtilModel.RefCount
 
 inductive COp where
   | access | wait | resolve | rwr (cb : Bool)
-deriving DecidableEq, Repr
+deriving DecidableEq, Repr, Hashable
 
 inductive CPc where
   | start
@@ -43,11 +43,11 @@ inductive CPc where
   | exitWait (v e : Nat)     -- result decided and `ref.Release()` called (once-flag swapped); waiting for its `removeRef` section (if it won the swap)
   | exitKeep (v e : Nat)     -- result decided; the reference is handed to the caller
   | returned
-deriving DecidableEq, Repr
+deriving DecidableEq, Repr, Hashable
 
 inductive GoPc where
   | none | rel | relWait | done
-deriving DecidableEq, Repr
+deriving DecidableEq, Repr, Hashable
 
 structure Con where
   op : COp
@@ -66,12 +66,12 @@ structure Con where
   wres : Bool := false               -- WaitWithReleased: currResolved
   wnonce : Nat := 0                  -- WaitWithReleased: currNonce
   go : GoPc := .none                 -- WaitWithReleased: the once-only release goroutine
-deriving DecidableEq, Repr
+deriving DecidableEq, Repr, Hashable
 
 structure CSt where
   b : St := {}
   ct : List (Option Con) := []
-deriving DecidableEq, Repr
+deriving DecidableEq, Repr, Hashable
 
 inductive CObs where
   | base (o : Obs)
@@ -82,7 +82,7 @@ inductive CObs where
   | cancelCall (a : Nat)
   | cbinReleased (a : Nat)
   | probeCtx (a m : Nat) (c : Bool)
-deriving DecidableEq, Repr
+deriving DecidableEq, Repr, Hashable
 
 inductive CEv where
   | base (e : Ev)
@@ -103,7 +103,7 @@ inductive CEv where
   | probeCtx (a m : Nat) (c : Bool)
   | probe (v e : Nat)
   | quiesce (B : List Nat)
-deriving DecidableEq, Repr
+deriving DecidableEq, Repr, Hashable
 
 def CEv.obs : CEv → Option CObs
   | .base e => (Ev.obs e).map .base
